@@ -1,4 +1,5 @@
 import DosModel.Model.Bls
+import DosModel.Model.BlsHist
 /-
 Line-protocol driver for C06.  Acceptance is decided by running the generic `Bls.verify` on the
 instance `Bls.evalOps`: G1 concrete (affine model), the public key given by its discrete log
@@ -6,7 +7,7 @@ instance `Bls.evalOps`: G1 concrete (affine model), the public key given by its 
 "accept" ⇔ the signature parses to a point S with  −S + x•(h•g₁) = O,  h = keccak256(msg) mod r
 computed by the Lean Keccak of `Model/Keccak.lean`.
 -/
-open Dos Dos.Bn256 Dos.Codec Dos.Bls
+open Dos Dos.Bn256 Dos.Codec Dos.Bls Dos.BlsHist
 
 namespace Dos.DrvC06
 
@@ -21,6 +22,62 @@ def msgOf (s : String) : Option Bytes :=
     | some n, some a, some b => some (synBytes n a b)
     | _, _, _ => none
   | _ => ofHex s
+
+/-- one step of a `hist` line → model steps (see `go/props/c06/hist.go` for the syntax) -/
+def parseStep (s : String) : Option (List (Step Nat)) :=
+  match s.splitOn ":" with
+  | ["n", b, cap, hx] => do
+    let b ← b.toNat?; let cap ← cap.toNat?; let bs ← ofHex hx
+    pure [.mut (.alloc b cap bs)]
+  | ["w", b, hx] => do
+    let b ← b.toNat?; let bs ← ofHex hx
+    pure [.mut (.write b bs)]
+  | ["p", b, off, hx] => do
+    let b ← b.toNat?; let off ← off.toNat?; let bs ← ofHex hx
+    pure [.mut (.poke b off bs)]
+  | ["a", b, hx] => do
+    let b ← b.toNat?; let bs ← ofHex hx
+    pure [.mut (.append b bs)]
+  | ["sl", d, s, lo, hi] => do
+    let d ← d.toNat?; let s ← s.toNat?; let lo ← lo.toNat?; let hi ← hi.toNat?
+    pure [.mut (.slice d s lo hi)]
+  | ["k", id, sk, _mode] => do
+    let id ← id.toNat?; let sk ← sk.toNat?
+    pure [.mut (.setKey id (sk % r))]
+  -- the caller writes the key's encoding into buffer b and decodes the key object from that buffer
+  | ["kb", id, b, sk] => do
+    let id ← id.toNat?; let b ← b.toNat?; let sk ← sk.toNat?
+    pure [.mut (.write b (marshalG2 (G2.smul (sk % r) g2gen))), .mut (.setKey id (sk % r))]
+  | ["x", id, v] => do
+    let id ← id.toNat?; let v ← v.toNat?
+    pure [.mut (.setScalar id (v % r))]      -- `Scalar().SetBytes` reduces mod r
+  | ["v", k, m, sg] => do
+    let k ← k.toNat?; let m ← m.toNat?; let sg ← sg.toNat?
+    pure [.call (.verify k m sg) none]
+  | ["s", x, m] => do
+    let x ← x.toNat?; let m ← m.toNat?
+    pure [.call (.sign x m) none]
+  | ["s", x, m, d] => do
+    let x ← x.toNat?; let m ← m.toNat?; let d ← d.toNat?
+    pure [.call (.sign x m) (some d)]
+  | ["tv", ks, m, sg] => do
+    let ks ← csvNat ks; let m ← m.toNat?; let sg ← sg.toNat?
+    pure [.call (.tverify ks m sg) none]
+  | _ => none
+
+/-- a call of a `par` line on values: `v:<sk>:<msg>:<sig>` or `s:<sk>:<msg>` -/
+def parseParCall (s : String) : Option (Args Nat) :=
+  match s.splitOn ":" with
+  | ["v", sk, m, sg] => do
+    let sk ← sk.toNat?; let m ← ofHex m; let sg ← ofHex sg
+    pure (.verify (sk % r) m sg)
+  | ["s", sk, m] => do
+    let sk ← sk.toNat?; let m ← ofHex m
+    pure (.sign (sk % r) m)
+  | _ => none
+
+def joinOutcomes (os : List Outcome) : String :=
+  if os.isEmpty then "-" else "/".intercalate (os.map outcomeName)
 
 def step (line : String) : String :=
   match words line with
@@ -39,6 +96,16 @@ def step (line : String) : String :=
     match sk.toNat?, msgOf ms, ofHex ss with
     | some sk, some msg, some sig => s!"all={verdictName (verify evalOps (sk % r) msg sig)} rounds={rounds} n={n}"
     | _, _, _ => "bad-op"
+  -- a call history on shared mutable objects: the model has no hidden state (`hist_is_pointwise`)
+  | ["hist", _tag, steps] =>
+    match (steps.splitOn "/").mapM parseStep with
+    | some ss => joinOutcomes (runHist evalOps evalKeyOps {} ss.flatten)
+    | none => "bad-op"
+  -- concurrent calls on values of their own: every round, every goroutine gets the one-shot outcome
+  | ["par", _rounds, calls] =>
+    match (calls.splitOn "/").mapM parseParCall with
+    | some cs => joinOutcomes (cs.map (oneShot evalOps evalKeyOps))
+    | none => "bad-op"
   | ["keccak", ms] =>
     match msgOf ms with
     | some msg => toHex (Keccak.keccak256 msg)
